@@ -6,13 +6,19 @@ Oracle for suite `anneal-trace` (C07): the model of `SimpleAnnealer.Anneal()` ru
 temperatures (the same sequential multiplications as the Go coolants).
 
   reset <case description>     (harness bookkeeping, makes a replay file self-contained) -> ok
-  run <N> <cur0> <T0 bits|-> <a bits|-> <none|init|try:j|cool:j> <observers> <merged 0|1>
+  run <N> <cur0> <T0 bits|-> <a bits|-> <site> <observers> <merged 0|1>
+      site = none | init | try:k | cool:k (before the multiplication) | coolafter:k | fattr | teardown |
+             obsS:j | obss:k:j | obsf:k:j | obsF:j   (observer j panics at that notify point; with fewer
+             than j+1 observers the site is void: `effectiveSite`)
       -> <outcome> <currentIteration> <temperature> <trace>
-         trace = explorer calls merged with the events the first observer received (merged = 1:
-         the harness has a passive recorder in first position) or explorer calls only
+         trace = explorer calls (and `!j`, observer j's panic) merged with the events the first observer
+         received (merged = 1: the harness has a passive recorder in first position) or without them
   probe <name>                 (a direct check the harness runs on the Go side only) -> done
   view <i> <full|kinds>
       -> what observer i of the last run received (`kinds`: iteration numbers elided)
+  seq L<line-up> <full|kinds>
+      -> `deliveries` of the last run restricted to the positions holding a recorder (`R`), as
+         `<observer>><event>`: the order in which the notifier calls the observers
 -/
 namespace Driver.Anneal
 open Crem.Anneal
@@ -29,6 +35,13 @@ def parseSite (s : String) : Option (Option PanicSite) :=
   | ["init"] => some (some .initialise)
   | ["try", j] => j.toNat?.map (fun j => some (.tryRandomChange j))
   | ["cool", j] => j.toNat?.map (fun j => some (.coolDown j))
+  | ["coolafter", j] => j.toNat?.map (fun j => some (.coolDownAfter j))
+  | ["fattr"] => some (some .finishAttributes)
+  | ["teardown"] => some (some .tearDown)
+  | ["obsS", j] => j.toNat?.map (fun j => some (.notify .startedAnnealing j))
+  | ["obsF", j] => j.toNat?.map (fun j => some (.notify .finishedAnnealing j))
+  | ["obss", k, j] => k.toNat?.bind (fun k => j.toNat?.map (fun j => some (.notify (.startedIteration k) j)))
+  | ["obsf", k, j] => k.toNat?.bind (fun k => j.toNat?.map (fun j => some (.notify (.finishedIteration k) j)))
   | _ => none
 
 def tStr (hasTemp : Bool) (T : Float) : String := if hasTemp then bitsStr T else "-"
@@ -42,6 +55,7 @@ def eventStr (hasTemp withIter : Bool) : Event Float → String
   | .finishedIteration k T => s!"f{if withIter then toString k else ""}:{tStr hasTemp T}"
   | .finishedAnnealing k T => s!"F{if withIter then toString k else ""}:{tStr hasTemp T}"
   | .explorerTearDown => "D"
+  | .observerPanic j => s!"!{j}"
 
 def outcomeStr : Outcome → String
   | .returned => "returned"
@@ -61,11 +75,19 @@ def step (st : Option State) (line : String) : Option State × String :=
       let hasTemp := T0 ≠ "-"
       match (if hasTemp then parseBits T0 else some 0.0), (if hasTemp then parseBits a else some 0.0) with
       | some T0, some a =>
-        let r := anneal N cur0 T0 a site
+        let r := anneal N cur0 T0 a (effectiveSite nobs site)
         (some { events := r.events, observers := nobs, hasTemp := hasTemp },
           s!"{outcomeStr r.outcome} {r.currentIteration} {tStr hasTemp r.temperature} {traceStr hasTemp true (if merged == "1" then r.events else r.events.filter (fun e => !e.observable))}")
       | _, _ => (st, "bad-op")
     | _, _, _, _ => (st, "bad-op")
+  | ["seq", mask, mode] =>
+    match st with
+    | some s =>
+      let recorderAt (i : Nat) : Bool := (mask.toList.drop 1)[i]? == some 'R'
+      let ds := (deliveries s.observers s.events).filter (fun p => recorderAt p.1)
+      (st, if ds.isEmpty then "-" else
+        ",".intercalate (ds.map (fun p => s!"{p.1}>{eventStr s.hasTemp (mode == "full") p.2}")))
+    | none => (st, "bad-op")
   | ["view", i, mode] =>
     match st, i.toNat? with
     | some s, some i =>
